@@ -54,6 +54,11 @@ def rng_rules(rep, prog, f, seed_param="random_state", unseeded_live=False):
             v = e.what.seed if e.kind == "make_gen" else e.what
             if isinstance(v, tuple):
                 rep.bad("R3.seed-expression", ewhere(e), "seed is derived (%s), not the parameter itself" % (v[0],))
+    reseeds = [e for e in effects if e.kind == "seed_global" and e.depth > 0]
+    if reseeds:
+        e = reseeds[0]
+        rep.bad("R4.one-stream", ewhere(e), "numpy's global stream is reseeded inside a loop: every iteration restarts the same stream, so the draws of "
+                "different iterations (e.g. the noise terms of different variables) are identical copies of one another")
     gens = [e for e in effects if e.kind == "make_gen" and isinstance(e.what.seed, RG.SeedV) and e.what.seed.api == f.qname]
     sites = {(e.site, e.chain) for e in gens}
     looped = [e for e in gens if e.depth > 0]
